@@ -190,9 +190,10 @@ def c19(tier, seed):
             gw = {"water_table": "Y", "dates": [start], "values": [rnd.choice([0.4, 0.8, 1.2, 1.9, 2.7, 4.5])]}
         elif kind == 1:
             # observations before, inside and after the simulation window
-            gw = {"water_table": "Y", "method": "Variable", "dates": rnd.choice([["2001/03/01", "2001/06/15", "2001/08/20", "2002/01/05"],
-                                                                                  ["2001/05/10", "2001/06/15", "2001/08/20"],
-                                                                                  ["2001/04/20", "2001/07/01"]]),
+            gw = {"water_table": "Y", "method": "Variable", "dates": [["2001/03/01", "2001/06/15", "2001/08/20", "2002/01/05"],
+                                                                      ["2001/05/10", "2001/06/15", "2001/08/20"],
+                                                                      ["2000/11/15", "2001/07/01"],
+                                                                      ["2001/04/20", "2001/07/01"]][(i // 4) % 4],
                   "values": [rnd.choice([2.5, 1.5]), rnd.choice([0.5, 0.9]), rnd.choice([1.4, 3.0]), 2.0]}
             gw["values"] = gw["values"][:len(gw["dates"])]
         elif kind == 2:
